@@ -205,6 +205,8 @@ func main() {
 		cmdCrash(os.Args[2:])
 	case "tamper":
 		cmdTamper(os.Args[2:])
+	case "queue":
+		cmdQueue(os.Args[2:])
 	default:
 		fatal(2, "unknown subcommand")
 	}
